@@ -684,7 +684,205 @@ pub fn run(a: &Args) -> Report {
     }
     report_panics(&mut r, env.fx.finish());
     aged(&mut r, a, &mut rng);
+    for _ in 0..(if a.quick() { 960 } else { 19_200 }) / a.nshards.max(1) {
+        let seed = rng.u64();
+        super::guarded(&mut r, json!({"class":"refused-at-capacity","seed":seed.to_string()}), |r| refused_at_capacity(r, seed));
+    }
     r
+}
+
+/// Refused writes leave no trace, even in a full store. A server whose four stores hold as much as their
+/// (small) limits allow - every entry validly written and read back first - receives a series of writes that
+/// must all be refused, each wrong in one way, aimed at targets the node does not hold yet as well as at the
+/// ones it holds. Afterwards the store sizes (snapshot hook) are what they were and every entry is still
+/// served, byte for byte: a refusal that made room for what it refused would have evicted one of them.
+pub fn refused_at_capacity(r: &mut Report, seed: u64) {
+    r.eval();
+    let mut rng = Rng::new(seed);
+    let caps = (1 + rng.usize(3), 1 + rng.usize(3), 1 + rng.usize(3));
+    let settings = ServerSettings { max_info_hashes: caps.0, max_immutable_values: caps.1, max_mutable_values: caps.2, ..Default::default() };
+    let fx = Fixture::new(seed, Some(settings));
+    let mut case = json!({"class":"refused-at-capacity","seed":seed.to_string(),"max_info_hashes":caps.0,"max_immutable_values":caps.1,"max_mutable_values":caps.2});
+    let mut a = fx.client(SocketAddrV4::new(Ipv4Addr::new(88, 7, 1, 1), 7001), [0xa1; 20]);
+    let mut p = fx.client(SocketAddrV4::new(Ipv4Addr::new(88, 7, 1, 2), 7002), [0xa2; 20]);
+    let (ida, idp) = (a.id, p.id);
+    let fresh_token = |fx: &Fixture, c: &mut Client| -> Vec<u8> {
+        let id = c.id;
+        fx.rpc(c, |t| q_get_peers(t, &id, &[0x11; 20], false));
+        c.token.clone().map(|t| t.0).unwrap_or_default()
+    };
+    // --- fill ---
+    let signer = SigningKey::from_bytes(&rng.array::<32>());
+    let ihs: Vec<[u8; 20]> = (0..caps.0).map(|_| rng.array()).collect();
+    let mut signed: Vec<(u64, Vec<u8>)> = vec![];
+    let tok = fresh_token(&fx, &mut a);
+    let mut fill_ok = !tok.is_empty();
+    for ih in &ihs {
+        fill_ok &= fx.rpc(&mut a, |t| q_announce_peer(t, &ida, ih, 4242, None, &tok)).is_ack();
+        let ts = fx.w.unix_micros() + 1000;
+        let sg = sign_announce(&signer, ih, ts);
+        fill_ok &= fx.rpc(&mut a, |t| q_announce_signed_peer(t, &ida, ih, &sg.k, &sg.sig, ts, &tok)).is_ack();
+        signed.push((ts, sg.sig.to_vec()));
+    }
+    let imms: Vec<Vec<u8>> = (0..caps.1).map(|i| format!("held-immutable-{i}-{}", rng.u64()).into_bytes()).collect();
+    for v in &imms {
+        let t = immutable_target(v);
+        fill_ok &= fx.rpc(&mut a, |tid| q_put_immutable(tid, &ida, &tok, &t, v)).is_ack();
+    }
+    let muts: Vec<(Vec<u8>, Vec<u8>)> = (0..caps.2).map(|i| (format!("held-mutable-{i}").into_bytes(), format!("salt{i}").into_bytes())).collect();
+    for (v, salt) in &muts {
+        let sg = sign_mutable(&signer, 5, v, Some(salt));
+        let t = mutable_target(&sg.k, Some(salt));
+        fill_ok &= fx.rpc(&mut a, |tid| q_put_mutable(tid, &ida, &tok, &t, v, &sg.k, &sg.sig, 5, Some(salt), None)).is_ack();
+    }
+    let key = signer.verifying_key().to_bytes();
+    // what the node serves for everything that was written: (store, entry, served correctly)
+    let read_all = |fx: &Fixture, p: &mut Client| -> Vec<(&'static str, usize, bool)> {
+        let mut out = vec![];
+        for (i, ih) in ihs.iter().enumerate() {
+            let rp = fx.rpc(p, |t| q_get_peers(t, &idp, ih, false));
+            let ok = match &rp {
+                Reply::Resp(k) => k.res("values").and_then(|v| v.as_list()).map(|l| l.iter().filter_map(|b| b.as_bytes()).any(|b| b.len() == 6 && parse_addr(b) == SocketAddrV4::new(Ipv4Addr::new(88, 7, 1, 1), 4242))).unwrap_or(false),
+                _ => false,
+            };
+            out.push(("peers", i, ok));
+            let rp = fx.rpc(p, |t| q_get_peers(t, &idp, ih, true));
+            let ok = match &rp {
+                Reply::Resp(k) => k.res("peers").and_then(|v| v.as_list()).map(|l| l.iter().filter_map(|b| b.as_bytes()).any(|b| b.len() == 104 && b[..32] == key && b[32..40] == signed[i].0.to_be_bytes() && b[40..] == signed[i].1[..])).unwrap_or(false),
+                _ => false,
+            };
+            out.push(("signed-peers", i, ok));
+        }
+        for (i, v) in imms.iter().enumerate() {
+            let t = immutable_target(v);
+            let rp = fx.rpc(p, |tid| q_get(tid, &idp, &t, None));
+            out.push(("immutable", i, matches!(&rp, Reply::Resp(k) if k.res_bytes("v") == Some(&v[..]))));
+        }
+        for (i, (v, salt)) in muts.iter().enumerate() {
+            let t = mutable_target(&key, Some(salt));
+            let rp = fx.rpc(p, |tid| q_get(tid, &idp, &t, None));
+            out.push(("mutable", i, matches!(&rp, Reply::Resp(k) if k.res_bytes("v") == Some(&v[..]) && k.res("seq").and_then(|s| s.as_int()) == Some(5))));
+        }
+        out
+    };
+    let before = read_all(&fx, &mut p);
+    let sizes = |fx: &Fixture| fx.server.as_ref().and_then(|s| super::net::snapshot(&fx.w, s)).map(|s| format!("{:?}", s.stores));
+    let sizes_before = sizes(&fx);
+    r.count("refused_at_capacity_worlds");
+    if !fill_ok || before.iter().any(|b| !b.2) || sizes_before.is_none() {
+        r.count("refused_at_capacity/fill-incomplete");
+        report_panics(r, fx.finish());
+        return;
+    }
+    // --- writes that must be refused ---
+    let n = 1 + rng.usize(8);
+    let mut sent: Vec<String> = vec![];
+    let mut accepted: Option<String> = None;
+    for j in 0..n {
+        let tok = fresh_token(&fx, &mut a);
+        let new_ih: [u8; 20] = rng.array();
+        let held_ih = ihs[rng.usize(ihs.len())];
+        let kind = rng.usize(14);
+        let ts = fx.w.unix_micros() + 1000;
+        let other = SigningKey::from_bytes(&rng.array::<32>());
+        let (name, reply): (&str, Reply) = match kind {
+            0 => ("announce_peer/random-token/new-info-hash", fx.rpc(&mut a, |t| q_announce_peer(t, &ida, &new_ih, 999, None, &[1, 2, 3, 4]))),
+            1 => {
+                let mut sg = sign_announce(&other, &new_ih, ts);
+                sg.sig[20] ^= 2;
+                ("announce_signed_peer/bad-signature/new-info-hash", fx.rpc(&mut a, |t| q_announce_signed_peer(t, &ida, &new_ih, &sg.k, &sg.sig, ts, &tok)))
+            }
+            2 => {
+                let old = ts - 50_000_000;
+                let sg = sign_announce(&other, &new_ih, old);
+                ("announce_signed_peer/stale-timestamp/new-info-hash", fx.rpc(&mut a, |t| q_announce_signed_peer(t, &ida, &new_ih, &sg.k, &sg.sig, old, &tok)))
+            }
+            3 => {
+                let sg = sign_announce(&other, &new_ih, ts);
+                ("announce_signed_peer/random-token/new-info-hash", fx.rpc(&mut a, |t| q_announce_signed_peer(t, &ida, &new_ih, &sg.k, &sg.sig, ts, &[9, 9, 9, 9])))
+            }
+            4 => {
+                let mut sg = sign_announce(&other, &held_ih, ts);
+                sg.sig[3] ^= 0x40;
+                ("announce_signed_peer/bad-signature/held-info-hash", fx.rpc(&mut a, |t| q_announce_signed_peer(t, &ida, &held_ih, &sg.k, &sg.sig, ts, &tok)))
+            }
+            5 => {
+                let v = format!("refused-{j}").into_bytes();
+                let mut t = immutable_target(&v);
+                t[3] ^= 1;
+                ("put_immutable/hash-mismatch/new-target", fx.rpc(&mut a, |tid| q_put_immutable(tid, &ida, &tok, &t, &v)))
+            }
+            6 => {
+                // another value sent to a target the node holds
+                let t = immutable_target(&imms[rng.usize(imms.len())]);
+                let v = format!("not-what-hashes-there-{j}").into_bytes();
+                ("put_immutable/hash-mismatch/held-target", fx.rpc(&mut a, |tid| q_put_immutable(tid, &ida, &tok, &t, &v)))
+            }
+            7 => {
+                let v = vec![b'o'; 1001 + rng.usize(200)];
+                let t = immutable_target(&v);
+                ("put_immutable/oversize/new-target", fx.rpc(&mut a, |tid| q_put_immutable(tid, &ida, &tok, &t, &v)))
+            }
+            8 => {
+                let v = format!("refused-{j}").into_bytes();
+                let t = immutable_target(&v);
+                ("put_immutable/random-token/new-target", fx.rpc(&mut a, |tid| q_put_immutable(tid, &ida, &[7, 7, 7, 7], &t, &v)))
+            }
+            9 => {
+                let mut sg = sign_mutable(&other, 1, b"refused", Some(b"s"));
+                sg.sig[0] ^= 1;
+                let t = mutable_target(&sg.k, Some(b"s"));
+                ("put_mutable/bad-signature/new-target", fx.rpc(&mut a, |tid| q_put_mutable(tid, &ida, &tok, &t, b"refused", &sg.k, &sg.sig, 1, Some(b"s"), None)))
+            }
+            10 => {
+                // the held key and salt, a higher seq, a signature that does not verify
+                let (_, salt) = &muts[rng.usize(muts.len())];
+                let mut sg = sign_mutable(&signer, 6, b"newer but forged", Some(salt));
+                sg.sig[63] ^= 0x80;
+                let t = mutable_target(&sg.k, Some(salt));
+                ("put_mutable/bad-signature/held-target", fx.rpc(&mut a, |tid| q_put_mutable(tid, &ida, &tok, &t, b"newer but forged", &sg.k, &sg.sig, 6, Some(salt), None)))
+            }
+            11 => {
+                let salt = vec![b'z'; 65];
+                let sg = sign_mutable(&other, 1, b"refused", Some(&salt));
+                let t = mutable_target(&sg.k, Some(&salt));
+                ("put_mutable/salt-too-long/new-target", fx.rpc(&mut a, |tid| q_put_mutable(tid, &ida, &tok, &t, b"refused", &sg.k, &sg.sig, 1, Some(&salt), None)))
+            }
+            12 => {
+                // a valid item of another key sent to a target the node holds
+                let (_, salt) = &muts[rng.usize(muts.len())];
+                let sg = sign_mutable(&other, 9, b"foreign", Some(salt));
+                let t = mutable_target(&key, Some(salt));
+                ("put_mutable/foreign-key/held-target", fx.rpc(&mut a, |tid| q_put_mutable(tid, &ida, &tok, &t, b"foreign", &sg.k, &sg.sig, 9, Some(salt), None)))
+            }
+            _ => {
+                // the held item's own key and salt, a lower seq
+                let (_, salt) = &muts[rng.usize(muts.len())];
+                let sg = sign_mutable(&signer, 4, b"older", Some(salt));
+                let t = mutable_target(&sg.k, Some(salt));
+                ("put_mutable/lower-seq/held-target", fx.rpc(&mut a, |tid| q_put_mutable(tid, &ida, &tok, &t, b"older", &sg.k, &sg.sig, 4, Some(salt), None)))
+            }
+        };
+        sent.push(name.to_string());
+        r.count(&format!("refused_at_capacity/sent/{}", name.split('/').next().unwrap_or("")));
+        if reply.is_ack() && accepted.is_none() {
+            accepted = Some(name.to_string());
+        }
+    }
+    case["refused_writes"] = json!(sent);
+    let sizes_after = sizes(&fx);
+    let after = read_all(&fx, &mut p);
+    r.add("refused_at_capacity/refused_writes_sent", n as u64);
+    r.add("refused_at_capacity/entries_read_back", after.len() as u64);
+    r.nontrivial(mix(seed, fnv(sent.join(",").as_bytes())));
+    if let Some(name) = accepted {
+        r.violation(&format!("refused-at-capacity/acknowledged/{name}"), "a write that must be refused was acknowledged", case.clone(), json!({}));
+    } else if let Some((store, i, _)) = after.iter().find(|x| !x.2) {
+        r.violation(&format!("refused-at-capacity/entry-lost-or-altered/{store}"), "after a series of refused writes a validly written entry of a full store is no longer served as written (nothing was accepted in between)", case.clone(), json!({"entry": i, "store_sizes_before": sizes_before, "store_sizes_after": sizes_after}));
+    } else if sizes_after != sizes_before {
+        r.violation("refused-at-capacity/store-sizes-changed", "refused writes changed the sizes of the node's stores", case.clone(), json!({"before": sizes_before, "after": sizes_after}));
+    }
+    report_panics(r, fx.finish());
 }
 
 /// Token-age histories: a client obtains a token, virtual time passes under one of several traffic
@@ -756,6 +954,11 @@ fn report_panics(r: &mut Report, panics: Vec<(String, String, String)>) {
 fn replay(path: &str, a: &Args) -> Report {
     let mut r = Report::new("C03");
     let v: Value = serde_json::from_str(&std::fs::read_to_string(path).unwrap_or_default()).unwrap_or_default();
+    if v["case"]["class"] == "refused-at-capacity" {
+        let seed = v["case"]["seed"].as_str().and_then(|s| s.parse().ok()).unwrap_or(1);
+        super::guarded(&mut r, v["case"].clone(), |r| refused_at_capacity(r, seed));
+        return r;
+    }
     let alpha = timed_alphabet();
     let hist: Vec<Sym> = v["case"]["history"]
         .as_array()
